@@ -157,7 +157,7 @@ def encode(case, frames, flags):
                 derived.append("false")
                 continue
             derived.append(f"check_turnout_factor {qlit(float(vals[0]))} {qlit(float(vals[1]))} {qlit(float(vals[2]))}")
-            if margin:
+            if margin and "results_dem" in fr.columns:
                 mv = [r["results_dem"], r["results_gop"], r["results_weights"], r["results_margin"], r["results_normalized_margin"]]
                 derived.append("false" if any(v != v for v in mv) else "check_margin_columns " + " ".join(qlit(float(v)) for v in mv))
             for e in p["estimands"]:
@@ -197,7 +197,7 @@ def s_oracle(case, frames, flags):
             if not (math.isfinite(tfv) and abs(tfv - exp) <= 1e-12 * max(1, abs(exp))):
                 fails.append({"what": f"unit {r['geographic_unit_fips']}: turnout_factor {tfv} but results_weights/baseline_weights = {exp}", "kind": "derived"})
                 break
-            if margin:
+            if margin and "results_dem" in fr.columns:
                 d, g = r["results_dem"], r["results_gop"]
                 nm = 0.0 if d + g == 0 else (d - g) / (d + g)
                 if r["results_margin"] != d - g or r["results_weights"] != d + g or not math.isfinite(r["results_normalized_margin"]) \
@@ -241,6 +241,21 @@ def worker(job):
             for c in ("results_dem", "results_gop", "results_turnout", "percent_expected_vote"):
                 f[c] = new[c]
                 feed_frame.loc[(feed_frame["geographic_unit_fips"] == f["geographic_unit_fips"]) & (feed_frame["postal_code"] == f["postal_code"]), c] = new[c]
+    if kw.get("prepared_feed") and not kw.get("probe") and feed_frame is None and p["estimands"] == ["margin"]:
+        # a feed that already carries the derived margin columns and no raw party counts (what the command line tool's mock live data
+        # handler hands over): two-party weights, margin, normalised margin, total turnout
+        import numpy as np
+
+        from harness import run_impl
+
+        ff = run_impl.frames(case)[1]
+        if len(ff):
+            ff["results_weights"] = ff["results_dem"] + ff["results_gop"]
+            ff["results_margin"] = ff["results_dem"] - ff["results_gop"]
+            with np.errstate(all="ignore"):
+                ff["results_normalized_margin"] = np.nan_to_num((ff["results_margin"] / ff["results_weights"]).astype(float), nan=0, posinf=0, neginf=0)
+            feed_frame = ff.drop(columns=["results_dem", "results_gop"])
+            fp["prepared_feed"] = True
     try:
         frames, flags = run_get_units(case, stub, feed_frame=feed_frame)
     except Exception as e:  # noqa: BLE001
@@ -333,7 +348,7 @@ def jobs_for(chk):
     jobs = [(0, {"probe": True, "policy": "drop"}), (1, {"probe": True, "policy": "zero"})]
     for i in range(n):
         pi = ["nonparametric", "bootstrap", "gaussian"][i % 3]
-        kw = {"pi_method": pi, "avoid_boot_nan_key": i % 2 == 0, "nan_rows": i % 2 == 1, "via_client": i % 2 == 0, "feed_reuse": i % 5 == 3}
+        kw = {"pi_method": pi, "avoid_boot_nan_key": i % 2 == 0, "nan_rows": i % 2 == 1, "via_client": i % 2 == 0, "feed_reuse": i % 5 == 3, "prepared_feed": i % 3 == 1}
         if i % 4 == 0:
             kw["threshold"] = rng.choice([0, 1, 50, 99, 100])
         if i % 6 == 0:
